@@ -162,7 +162,7 @@ def str2array(string: str, dtype: bool | int | float | complex | None = None):
     
     if _dtype == bool:
         # for special cases when string = '10 100 1000' and dtype = int | float | complex 
-        if dtype == int or dtype==float or dtype==complex: 
+        if dtype is not None and np.issubdtype(dtype, np.number): # any numeric dtype (int, np.int64, float, ...)
             strings = string.split(';')
             if len(strings) == 1:
                 arr = np.array(re.split(r'[,\s]+', strings[0].strip()), dtype=dtype)
